@@ -62,6 +62,8 @@ func ChildMain(jobFile, outFile string) {
 			r = RestartLoop(j.Seed, j.Prog, j.Prog.Cycles)
 		case "failsub":
 			r = FailSubLoop(j.Seed, j.Prog, j.Prog.Cycles)
+		case "twolisteners":
+			r = TwoListenerLoop(j.Seed, j.Prog, j.Prog.Cycles)
 		case "failstart":
 			r = FailedStartLoop(j.Seed, j.Prog, j.Prog.Cycles)
 		case "contend":
@@ -78,7 +80,7 @@ func ChildMain(jobFile, outFile string) {
 			}
 			f.Close()
 		}
-		if j.Mode != "restartloop" && j.Mode != "failsub" && j.Mode != "failstart" && j.Mode != "contend" && len(r.Events) > 0 && len(r.Events) < 4000 {
+		if j.Mode != "restartloop" && j.Mode != "failsub" && j.Mode != "failstart" && j.Mode != "twolisteners" && j.Mode != "contend" && len(r.Events) > 0 && len(r.Events) < 4000 {
 			w := j.Prog.Workers
 			if w <= 0 {
 				w = 2
@@ -452,6 +454,27 @@ func Run(c *core.Ctx) {
 			prog.Api = []string{apiKindsFree[rng.Intn(len(apiKindsFree))]}
 		}
 		add(Job{Mode: "stress", Seed: c.Seed*1000 + 800 + int64(i), Prog: prog, Src: "immediate-restart"})
+	}
+	// (two listeners at once) the first life's OnServe callback is slow: requests pile up in its in-channel, the
+	// service is shut down and served again meanwhile, and the first Serve call then passes its backlog on while
+	// the listener of the second life is receiving too. The groups are built from tags of the resource name.
+	for i := 0; i < c.Pick(10, 60); i++ {
+		prog := Program{Workers: 2 + rng.Intn(3), InCh: 0, Producers: map[string][]Sub{}, Shutdown: true, Cycles: 2, Overtake: true, OnServeUs: 3000 + rng.Intn(5000)}
+		for p := 0; p < 2; p++ {
+			var subs []Sub
+			for k := 0; k < 500; k++ {
+				if k%5 == 4 {
+					subs = append(subs, Sub{Kind: "pause"})
+					continue
+				}
+				subs = append(subs, Sub{Kind: []string{"get", "call", "access"}[rng.Intn(3)], Group: []string{"g2", "g8", "g7", "g4"}[rng.Intn(4)]})
+			}
+			prog.Producers[fmt.Sprintf("p%d", p+1)] = subs
+		}
+		add(Job{Mode: "stress", Seed: c.Seed*1000 + 860 + int64(i), Prog: prog, Src: "two-listeners"})
+	}
+	for i := 0; i < c.Pick(4, 16); i++ {
+		add(Job{Mode: "twolisteners", Seed: c.Seed*1000 + 880 + int64(i), Prog: Program{Workers: []int{4, 8, 2, 16}[i%4], Cycles: c.Pick(12, 40)}, Src: "two-listeners-loop"})
 	}
 	for i := 0; i < c.Pick(8, 24); i++ {
 		add(Job{Mode: "restartloop", Seed: c.Seed*1000 + 900 + int64(i), Prog: Program{Workers: []int{32, 32, 4, 32, 1, 32, 8, 32}[i%8], Cycles: c.Pick(5000, 20000)}, Src: "restart-loop"})
